@@ -316,7 +316,7 @@ SHUTTLE_PROPS = {
             "assume": ["soundness against the edges the property lists; precision against the object-conservative relation (every operation on an object after every earlier one on it, plus tasks queued on it)",
                        "no edge is claimed for a lazy static that is already initialised, for park/unpark, or for failed try operations",
                        "target-clock replay (ReplayScheduler::set_target_clock) is not covered yet"]},
-    "C17": {"stages": [F("async", 30, 150), F("async_noabort", 24, 120), F("async_sem", 24, 120), F("corpus_sem", 0, 0),
+    "C17": {"stages": [F("async", 30, 150), F("async_noabort", 24, 120), F("async_sem", 24, 120), F("corpus_sem", 0, 0), F("corpus_isfin", 0, 0, mc=False),
                        F("async_blk", 20, 100), F("async_wake", 16, 100), F("corpus_async", 0, 0),
                        {"fam": "async", "quick": 10, "thorough": 100, "mc": False, "sample": (40, 300), "pb": None}],
             "assume": ["one awaiter per hand-written waker slot; blocking std calls inside a poll are lock/unlock pairs and channel receives (no guard is held across an await)",
@@ -348,7 +348,7 @@ SHUTTLE_PROPS = {
                        F("condvar", 18, 200), F("park", 20, 150), F("barrier", 20, 150), F("barrier_reuse", 12, 100),
                        F("once", 16, 150), F("mpsc", 30, 300), F("mpsc_drop", 30, 300), F("sem_unfair", 20, 200),
                        F("sem_fair", 20, 200), F("async", 30, 150), F("async_noabort", 24, 120), F("async_sem", 24, 120),
-                       F("async_blk", 16, 80), F("corpus_async", 0, 0), F("corpus_sem", 0, 0), F("corpus_deadlock", 0, 0), F("corpus_locks", 0, 0),
+                       F("async_blk", 16, 80), F("corpus_async", 0, 0), F("corpus_sem", 0, 0), F("corpus_isfin", 0, 0), F("corpus_deadlock", 0, 0), F("corpus_locks", 0, 0),
                        F("corpus_sync", 0, 0), F("corpus_mpsc", 0, 0)],
             "kinds": {"outcome-missing-in-impl", "harness-crash", "tlc-error"},
             "assume": ["outcome = per-thread results + termination kind + unfinished set; spurious park wake-ups are not part of outcome sets",
